@@ -435,7 +435,7 @@ def routed_part(ctx, wd, rng):
             elif "tid" in j:
                 rej.setdefault(j["tid"], j)
         if notes:
-            print("  NOTE: %d of %d route connection logs forward a request without exclusive use of the connection (a discipline that RouteConn shows admits a wrong reply)" % (len(notes), len(logs)))
+            print("  NOTE: %d of %d route connection logs forward a request without exclusive use of the connection, or give it up before reading the reply (a discipline that RouteConn shows admits a wrong reply)" % (len(notes), len(logs)))
         ev.extra["routeconn_logs_departing_from_hold_discipline"] = len(notes)
         if not rej and r4.distinct != sum(len(ln["rev"]) + 1 for ln in logs):
             ctx.machinery.append("RouteConnTrace visited %d states, expected %d" % (r4.distinct, sum(len(ln["rev"]) + 1 for ln in logs)))
